@@ -264,7 +264,7 @@ fn decode_address(mut buf: Bytes) -> IoResult<Option<TargetAddress>> {
     if buf.is_empty() {
         return Ok(None);
     }
-    if buf.len() < 8 {
+    if buf.len() < 2 {
         return Err(IoError::new(ErrorKind::InvalidInput, "bad header"));
     }
     let tag = buf.get_u8();
@@ -277,7 +277,8 @@ fn decode_address(mut buf: Bytes) -> IoResult<Option<TargetAddress>> {
             if len < 2 {
                 return Err(IoError::new(ErrorKind::InvalidInput, "bad header"));
             }
-            let host = String::from_utf8_lossy(&buf.split_to(len - 2)).to_string();
+            let host = String::from_utf8(buf.split_to(len - 2).to_vec())
+                .map_err(|e| IoError::new(ErrorKind::InvalidInput, e))?;
             let port = buf.get_u16();
             Ok(Some((host, port).into()))
         }
